@@ -622,6 +622,7 @@ func fsUnique(x ssa.Value, at ssa.Instruction, via *ssa.BasicBlock) ssa.Value {
 // CAlt is one way a value can be a constant: the constant and the branch
 // conditions (atoms) under which the value is that constant.
 type CAlt struct {
+	V     ssa.Value  // the leaf value of this alternative
 	K     *ssa.Const // nil: not a constant on this alternative
 	Conds []Atom
 	// table alternatives (value read from a read-only package-level map):
@@ -793,22 +794,22 @@ func condAlts(v ssa.Value, depth int) []CAlt {
 	}
 	switch x := v.(type) {
 	case *ssa.Const:
-		return []CAlt{{K: x}}
+		return []CAlt{{K: x, V: x}}
 	case *ssa.Lookup:
 		if alts := tableAlts(x); alts != nil {
 			return alts
 		}
-		return []CAlt{{}}
+		return []CAlt{{V: v}}
 	case *ssa.Extract:
 		if lk, ok := x.Tuple.(*ssa.Lookup); ok && x.Index == 0 {
 			if alts := tableAlts(lk); alts != nil {
 				return alts
 			}
 		}
-		return []CAlt{{}}
+		return []CAlt{{V: v}}
 	case *ssa.Phi:
 		if depth > 4 {
-			return []CAlt{{}}
+			return []CAlt{{V: v}}
 		}
 		var out []CAlt
 		for i, e := range x.Edges {
@@ -845,7 +846,7 @@ func condAlts(v ssa.Value, depth int) []CAlt {
 	case *ssa.Call:
 		sc := staticCallee(x.Common())
 		if sc == nil || !InRepo(sc) || sc.Blocks == nil || sc.Signature.Results().Len() != 1 || depth > 3 {
-			return []CAlt{{}}
+			return []CAlt{{V: v}}
 		}
 		var out []CAlt
 		translate := func(a Atom) Atom {
@@ -886,9 +887,9 @@ func condAlts(v ssa.Value, depth int) []CAlt {
 			}
 		})
 		if len(out) == 0 {
-			return []CAlt{{}}
+			return []CAlt{{V: v}}
 		}
 		return out
 	}
-	return []CAlt{{}}
+	return []CAlt{{V: v}}
 }
